@@ -44,6 +44,8 @@ pub struct Ctl {
     pub next_id: AtomicU64,
     /// when non-empty, delays are injected only at points whose name starts with one of these
     pub delay_prefixes: RwLock<Vec<&'static str>>,
+    /// one-shot actions: the first thread to reach the point runs the closure there
+    pub actions: Mutex<HashMap<&'static str, Arc<dyn Fn() + Send + Sync>>>,
 }
 
 pub struct Gate {
@@ -84,6 +86,7 @@ pub fn ctl() -> Arc<Ctl> {
             point_hits: Mutex::new(BTreeMap::new()),
             next_id: AtomicU64::new(1_000_000_000),
             delay_prefixes: RwLock::new(Vec::new()),
+            actions: Mutex::new(HashMap::new()),
         });
         let c2 = c.clone();
         surrealkv::verif::set_point_hook(Some(Arc::new(move |name: &'static str| c2.at_point(name))));
@@ -120,6 +123,11 @@ impl Ctl {
         self.point_hits.lock().unwrap().clear();
         *self.tree.write().unwrap() = None;
         self.delay_prefixes.write().unwrap().clear();
+        self.actions.lock().unwrap().clear();
+    }
+    /// Runs `f` once, from inside the named yield point, on the first thread that reaches it.
+    pub fn at_point_once(&self, name: &'static str, f: Arc<dyn Fn() + Send + Sync>) {
+        self.actions.lock().unwrap().insert(name, f);
     }
     pub fn arm_gate(&self, name: &'static str) -> Arc<Gate> {
         let g = Arc::new(Gate { armed: AtomicBool::new(true), parked: Mutex::new(false), released: Mutex::new(false), cv: Condvar::new() });
@@ -136,6 +144,10 @@ impl Ctl {
             self.point_events.lock().unwrap().push((tick(), thread_id(), name));
         }
         *self.point_hits.lock().unwrap().entry(name).or_insert(0) += 1;
+        let action = self.actions.lock().unwrap().remove(name);
+        if let Some(f) = action {
+            f();
+        }
         // gate: the first thread to arrive parks until released (bounded wait)
         let gate = self.gates.lock().unwrap().get(name).cloned();
         if let Some(g) = gate {
